@@ -32,3 +32,8 @@ Proof. vm_compute. reflexivity. Qed.
 Lemma spline_callable_fresh_after_grid :
   fresh_after gen_cfg h_ffd_fun (GridSet PV nat CV 0 2) x_obs 0 = true.
 Proof. vm_compute. reflexivity. Qed.
+
+(* a composite with a callable-parameter member used twice and a tensor member, after an in-place edit
+   and re-conditioning: the call returns what the three members hold *)
+Lemma composite_call_fresh_witness : seq_fresh_after gen_cfg h_seq 2 = true.
+Proof. vm_compute. reflexivity. Qed.
